@@ -9,6 +9,7 @@
 -/
 import MpirProofs.Lemmas.AliasShift
 import MpirProofs.Lemmas.AliasBits
+import MpirProofs.Lemmas.AliasRoot
 namespace Mpir.AliasMem
 open Mpir
 
@@ -121,5 +122,27 @@ example : errOf2 (logicV { reread := false } iorPlan 2 0 2 exSt3) = "ub:read of 
 -- mpz_com with `src_ptr = src->_mp_d` fetched before the realloc, dst = src, carry into a new limb
 example : errOf2 (mpz_comV { ptrAfterRealloc := false } 2 2 (ofInts [5, 6, 2 ^ 64 - 1])) = "ub:read of a freed block" := by
   decide
+
+/-! ## mpz_sqrtrem -/
+
+/-- mpz_sqrtrem (mpz/sqrtrem.c), every choice of root, rem, op with root ≠ rem (root = op: the operand is copied to TMP
+    space "Make OP not overlap with ROOT", :74-81; rem = op: mpn_sqrtrem writes the remainder over the operand, which its
+    contract allows; a root block that is too small is freed and a new one allocated, :57-70), op ≥ 0:
+    root = ⌊√op⌋, rem = op - root², computed from the value of op before the call. -/
+theorem sqrtrem_ptr_spec {s : St} (h : Inv s) {root rem op : Nat} (hr : root < s.nv) (hm : rem < s.nv) (ho : op < s.nv)
+    (hrm : root ≠ rem) (hop : 0 ≤ s.value op) :
+    ∃ s', sqrtrem root rem op s = .ok s' ∧ Inv s' ∧ s'.nv = s.nv ∧
+      s'.value root = (Nat.sqrt (s.value op).toNat : Int) ∧
+      s'.value rem = s.value op - (Nat.sqrt (s.value op).toNat : Int) * (Nat.sqrt (s.value op).toNat : Int) ∧
+      ∀ i, i < s.nv → i ≠ root → i ≠ rem → s'.value i = s.value i :=
+  sqrtrem_ok h hr hm ho hrm hop
+
+def exSt4 : St := ofInts [2 ^ 200 + 12345, 2 ^ 70 + 3, 7, 0]
+-- root = op (TMP copy of the operand), rem a one-limb variable that must grow to 4 limbs
+example : look2 (sqrtrem 0 3 0 exSt4) 4 = .ok [(2 ^ 100, 4, 0), (2 ^ 70 + 3, 2, 1), (7, 1, 2), (12345, 4, 4)] := by decide +kernel
+-- rem = op, root a one-limb variable: its block is freed and a 2-limb block allocated
+example : look2 (sqrtrem 2 0 0 exSt4) 3 = .ok [(12345, 4, 0), (2 ^ 70 + 3, 2, 1), (2 ^ 100, 2, 4)] := by decide +kernel
+-- negative example: without the copy (sqrtrem.c:74-81 removed), root = op
+example : errOf2 (sqrtremV { copyNum := false } 0 3 0 exSt4) = "ub:mpn_sqrtrem operands overlap" := by decide
 
 end Mpir.AliasMem
